@@ -9,11 +9,18 @@ import random
 import re
 import subprocess
 import sys
+import time
+
+import json
 
 from vlib import core, flow
+from checks import c01_deep
 
 KINDS = ["set", "mset", "map", "mmap"]
-SLOT_PAIRS = [(4, 4), (5, 5), (6, 6), (7, 7), (8, 8), (16, 16), (4, 7), (7, 4), (5, 16), (16, 5)]
+SLOT_PAIRS = [(4, 4), (4, 5), (5, 4), (5, 5), (6, 6), (7, 7), (8, 8), (16, 16), (4, 7), (7, 4), (5, 16), (16, 5)]
+# instantiated as well, used by the bulk_load size cases only: (16, 4) and the capacities of
+# btree_default_traits for 4-byte keys, (64, 21)
+BULK_PAIRS = [(5, 4), (7, 4), (16, 5), (16, 4), (4, 7), (5, 16), (4, 5)]
 STD_FLAGS = ["-std=gnu++17", "-O0", "-g1", "-fsanitize=address,undefined",
              "-fno-sanitize-recover=all", "-fno-omit-frame-pointer"]
 
@@ -307,6 +314,88 @@ def directed_cases():
     return cs
 
 
+def bulk_sizes(leaf, inner, cap):
+    """sizes at, just below and just above the places where the level structure of bulk_load changes: full
+    trees leaf*(inner+1)^j, minimally filled ones, the same with the leaf fan-out mistaken for the inner one
+    and vice versa, and a few sizes well inside three and four levels"""
+    lm, im = leaf // 2, inner // 2
+    s = set()
+    for j in (1, 2, 3):
+        for base in (leaf * (inner + 1) ** j, leaf * (leaf + 1) ** j, inner * (inner + 1) ** j,
+                     lm * (im + 1) ** j, lm * (inner + 1) ** j, leaf * (im + 1) ** j,
+                     (leaf * (inner + 1) ** j * 3) // 2, leaf * (inner + 1) ** j + leaf * (inner + 1) ** (j - 1)):
+            for d in (-1, 0, 1, leaf, leaf + 1):
+                if 0 < base + d <= cap:
+                    s.add(base + d)
+    return sorted(s)
+
+
+def bulk_size_cases(tier, seed):
+    """bulk_load of the asymmetric capacity pairs up to four levels (and the default-traits capacities beyond
+    leaf*(inner+1)^2 items in the thorough tier), followed by observations and a little surgery"""
+    cs = []
+    n = seed
+    pairs = [(p, 4000 if tier == "quick" else 30000) for p in BULK_PAIRS]
+    if tier != "quick":
+        pairs.append(((64, 21), 33000))
+    for (leaf, inner), cap in pairs:
+        sizes = bulk_sizes(leaf, inner, cap)
+        if tier == "quick" and len(sizes) > 14:
+            # the three-inner-level sizes always, a rotating sample of the rest
+            big = [x for x in sizes if x > leaf * (inner + 1) ** 2]
+            rest = [x for x in sizes if x <= leaf * (inner + 1) ** 2]
+            sizes = sorted(set(big[:8] + big[-2:] + rest[seed % 3::3]))
+        if (leaf, inner) == (64, 21):
+            sizes = [64 * 22 * 22 + 1, 31000, 32771]
+        for sz in sizes:
+            kind = KINDS[n % 4]
+            mode = n % 2
+            is_map, dup = kind in ("map", "mmap"), kind in ("mset", "mmap")
+            keys = [(i // 2 if dup and n % 3 == 0 else i) for i in range(sz)]
+            if mode == 1:
+                keys = [sz - k for k in keys]
+            ents = " ".join(fmt_ent(is_map, k, k % 5) for k in keys)
+            probe = sorted({keys[0], keys[-1], keys[sz // 2], keys[sz // 3], keys[(2 * sz) // 3]})
+            lines = [f"case bulk-{leaf}-{inner}-{sz}", f"cfg {kind} {leaf} {inner} {n % 2} {mode}", "bulk 0 " + ents, "size 0"]
+            for k in probe:
+                lines += [f"lb 0 {k}", f"ub 0 {k}", f"find 0 {k}"]
+            lines += [f"iter 0 {n % 16}", f"er1 0 {keys[sz // 2]}", f"eri 0 {sz // 3}", f"ins 0 {keys[-1] + (1 if mode == 0 else 0)} 1",
+                      "copy 1 0", f"er1 1 {keys[0]}", "cmp 0 1", "clear 0", "size 0"]
+            cs.append(lines)
+            n += 1
+    return cs
+
+
+def allocator_cases():
+    """the two registers are constructed with different allocator instances and, here, different comparators:
+    copy construction, assignment with an empty / small / multi-level tree on either side, both swaps, range
+    construction, clear and destruction in every order, with growth and shrinkage in between"""
+    cs = []
+    n = 0
+    fills = (0, 3, 40)
+    for (leaf, inner) in ((4, 4), (5, 4), (4, 7)):
+        for kind in KINDS:
+            is_map = kind in ("map", "mmap")
+            for f0 in fills:
+                for f1 in fills:
+                    m0, m1 = n % 3, (n + 1) % 3
+                    lines = [f"case alloc-{kind}-{leaf}-{inner}-{f0}-{f1}", f"cfg {kind} {leaf} {inner} {n % 2} {m0} {m1}"]
+                    for r, f in ((0, f0), (1, f1)):
+                        for i in range(f):
+                            lines.append(f"ins {r} {(i * 7 + r) % 53} {i}")
+                    two = [("assign 0 1", "assign 1 0"), ("swap 0 1", "assign 0 1"), ("tswap 0 1", "assign 1 0"),
+                           ("copy 0 1", "swap 0 1"), ("assign 1 0", "tswap 0 1"), ("swap 1 0", "copy 1 0")][n % 6]
+                    lines += [two[0], "ins 0 60 1", "ins 1 2 1", "ins 0 5 2", "iter 0 0", "iter 1 0", "cmp 0 1",
+                              "er1 0 60", two[1], "ins 1 61 1", "ins 0 3 1", "iter 0 1", "iter 1 1",
+                              "rctor 0 " + " ".join(fmt_ent(is_map, k, 1) for k in (9, 1, 5, 7, 3, 11, 13, 2, 4, 6, 8, 10, 12)),
+                              "assign 1 0", "ins 1 14 1", "swap 0 1", "er1 0 14", "clear 1", "assign 0 1", "ins 0 1 1",
+                              "rctor 1 " + " ".join(fmt_ent(is_map, k, 2) for k in range(20, 0, -1)),
+                              "assign 0 0", "swap 1 1", "tswap 0 0", "assign 0 1", "clear 0", "clear 1", "size 0"]
+                    cs.append(lines)
+                    n += 1
+    return cs
+
+
 AFIELD = re.compile(r" ; a=(\d+),(\d+),(\d+),(\d+) ; T0 s=\d+,\d+,(\d+) .* ; T1 s=\d+,\d+,(\d+) ")
 
 
@@ -330,12 +419,23 @@ def nontrivial_key(case, answers):
 
 class BTreeSpec(flow.Spec):
     def probe_lines(self, case, idx):
-        """all queries over the key universe on the register whose structure differs"""
+        """all queries over the keys of the case (and their neighbours) on the register whose structure differs"""
         toks = case[idx].split()
         regs = [t for t in toks[1:3] if t in ("0", "1")] or ["0"]
+        keys = set(range(0, 48))
+        for l in case[:idx + 1]:
+            t = l.split()
+            if t and t[0] in ("ins", "insh", "ins2", "idx", "insr", "rctor", "bulk"):
+                for x in t[2:]:
+                    k = x.split(":")[0]
+                    if k.isdigit():
+                        keys.update((int(k), int(k) + 1, max(int(k) - 1, 0)))
+        keys = sorted(keys)
+        if len(keys) > 900:
+            keys = keys[::len(keys) // 900 + 1]
         out = []
         for r in dict.fromkeys(regs):
-            for k in range(0, 48):
+            for k in keys:
                 for q in ("find", "lb", "ub", "eqr", "exists", "count"):
                     out.append(f"{q} {r} {k}")
             for m in range(16):
@@ -374,6 +474,9 @@ class BTreeSpec(flow.Spec):
         cs = []
         if round_no == 0:
             cs += directed_cases()
+            cs += self.deep_cases(ctx, seed, tier)
+            cs += bulk_size_cases(tier, seed)
+            cs += allocator_cases()
         n = 260 if tier == "quick" else 8000
         k = 0
         # every kind x slot pair x search x order at least once per run, then random configurations
@@ -390,7 +493,64 @@ class BTreeSpec(flow.Spec):
                 for length in (4, 5) if kind in ("map", "mmap") else (4, 5, 6):
                     cs += exhaustive_small(kind, 4, 4, 0, 0, length)
             cs += exhaustive_small("mset", 5, 5, 1, 1, 6)
+        self.seen_cases = getattr(self, "seen_cases", []) + cs
         return cs
+
+    def deep_cases(self, ctx, seed, tier):
+        """tall trees at the minimal capacities shaped for every branch of the erase case analysis, planned
+        with the model's branch trace (checks/c01_deep.py); cached per model driver, seed and tier"""
+        drv = core.driver_path(self.pid)
+        if not os.path.exists(drv):
+            return []
+        h = hashlib.sha1()
+        for f in (drv, c01_deep.__file__):
+            h.update(open(f, "rb").read())
+        cache = os.path.join(core.BUILD, "c01_deep", f"{h.hexdigest()[:20]}_{tier}_{seed}.json")
+        if os.path.exists(cache):
+            try:
+                return json.load(open(cache))
+            except ValueError:
+                pass
+        t = time.time()
+        cases, covered = c01_deep.plan(drv, seed, tier, lambda m: ctx.say(m))
+        ctx.say(f"deep-tree planner: {len(cases)} cases, {sum(len(c) for c in cases)} ops, "
+                f"{len([l for l in c01_deep.UNIVERSE if l in covered])}/{len(c01_deep.UNIVERSE)} branches of the erase "
+                f"case analysis planned, {time.time() - t:.1f}s")
+        os.makedirs(os.path.dirname(cache), exist_ok=True)
+        tmp = cache + f".tmp{os.getpid()}"
+        json.dump(cases, open(tmp, "w"))
+        os.replace(tmp, cache)
+        return cases
+
+    def extra_coverage(self, ctx, res):
+        """branch coverage of erase_one_descend / erase_iter_descend over every generated case of this run,
+        as traced by the model (`drv labels`, Model/C01Trace.lean)"""
+        drv = core.driver_path(self.pid)
+        cases = getattr(self, "seen_cases", [])
+        if not os.path.exists(drv) or not cases:
+            return {}
+        cnt = c01_deep.coverage(drv, cases)
+        table = {l: cnt.get(l, 0) for l in c01_deep.UNIVERSE}
+        other = {l: c for l, c in cnt.items() if l not in table}
+        missing = [l for l in c01_deep.UNIVERSE if not cnt.get(l)]
+        ctx.say(f"erase branch coverage (model trace over {len(cases)} generated cases): "
+                f"{len(table) - len(missing)}/{len(table)} branches exercised"
+                + ("; NOT exercised: " + " ".join(missing) if missing else ""))
+        return {"erase_branch_coverage": table,
+                "erase_branches_exercised": len(table) - len(missing),
+                "erase_branches_total": len(table),
+                "erase_branches_not_exercised": missing,
+                "erase_branch_labels_outside_table": other,
+                "erase_branch_legend": (
+                    "k = erase_one_descend, i = erase_iter_descend; L leaf frame, I1 inner frame of level 1, I2 of "
+                    "level >= 2; row<r> = branch of the underflow if/else chain in source order (1 both neighbours "
+                    "few/null, 2 left few & right has spare, 3 left has spare & right few, 4 both spare & same parent, "
+                    "5 else; a/b = first/second alternative: a same-parent action, b the cousin-under-another-parent "
+                    "one for rows 1-3 and 5); +lk = myres already carries btree_update_lastkey when the merge/shift "
+                    "result is or-ed in; nofix = no underflow; lastkey.set/fwd = separator written / forwarded; "
+                    "fixmerge.cur/next = which merged child is the empty one; exec.* = the merge/shift function run; "
+                    "scan.advance = erase_iter's search loop went on to a further child; counts are model-side "
+                    "(the model is compared with the implementation structurally on every one of these operations)")}
 
 
 class C01(BTreeSpec):
@@ -405,7 +565,8 @@ class C01(BTreeSpec):
         "real chain, walked forward and backward, is exactly that sequence",
         "array slots beyond slotuse (stale copies) are not part of the model",
         "unsigned short slotuse / size_t counters are modelled by Nat (no node capacity near 65535 is exercised)",
-        "element copy/assignment and the allocator meet their standard contracts; allocator propagation is not modelled",
+        "element copy/assignment and the allocator meet their standard contracts; which allocator instance a tree holds after "
+        "copy construction / assignment / swap is modelled as tlx does it (source's instance, unconditionally) and compared",
         "std::equal / std::lexicographical_compare / std::copy(_backward) meet their standard contracts",
         "keys and values are natural numbers in the correspondence; the theorems are generic in the key type and order",
     ]
@@ -414,6 +575,8 @@ class C01(BTreeSpec):
                     "line-protocol correspondence (harness/c01*.cpp through tlx's TLX_BTREE_FRIENDS hook, ASan+UBSan)",
                     "translator tools/c01_extract.py (slotmin formulas, is_full/is_few/is_underflow, result_flags_t bits, "
                     "btree_default_traits -> Gen/C01Consts.lean, regenerated on every run)",
+                    "branch trace of the erase case analysis computed by the model (Model/C01Trace.lean, proved to be the "
+                    "model's descent) for the deep-tree planner checks/c01_deep.py and the coverage table in the evidence",
                     "libstdc++ std::set/multiset/map/multimap as reference oracle (search aid only)"]
 
 
